@@ -1723,6 +1723,10 @@ def run(ctx, model_ok=True):
         sigma = qgen.rand_density(rng, n, int(rng.integers(1, n + 1)), cplx)
         dev = sigma - np.eye(n) / n
         nd = float(np.linalg.norm(dev, "fro"))
+        if nd < 1e-9:      # the drawn state is the maximally mixed one: take a fixed traceless direction instead of dividing by zero
+            dev = np.zeros((n, n), dtype=sigma.dtype)
+            dev[0, 0], dev[n - 1, n - 1] = 0.5, -0.5
+            nd = float(np.linalg.norm(dev, "fro"))
         r_ball = 1.0 / np.sqrt(n * (n - 1))
         fac = [0.5, 0.999999, 1.000001, 2.0, 1 - 1e-12][kind]  # inside / just inside / just outside / outside / boundary (not demanded)
         rho = herm(np.eye(n) / n + dev * (fac * r_ball / nd))
